@@ -50,7 +50,8 @@ var dims = []dim{
 	{"preference", []string{"valid", "garbage", "absent"}},
 	{"common-name", []string{"unset", "set"}},
 	// an entry of the fetch protocol placed ahead of the authentication request in the same hello
-	{"leading-entry", []string{"none", "empty-fetch-request", "garbage-fetch-request"}},
+	// (the last value: a well-formed, correctly signed fetch request of a key nobody registered)
+	{"leading-entry", []string{"none", "empty-fetch-request", "garbage-fetch-request", "well-formed-fetch-request"}},
 }
 
 type vector [10]int
@@ -220,6 +221,14 @@ func (w *world) build(v vector, nonceLabel string) (*harness.AuthClient, nodeenr
 		c.FirstProtos = []string{nodeenrollment.FetchNodeCredsNextProtoV1Prefix + "00-"}
 	case 2:
 		c.FirstProtos = []string{nodeenrollment.FetchNodeCredsNextProtoV1Prefix + "00-bm90IGEgcmVxdWVzdA"}
+	case 3:
+		fk, fe := harness.NewCertKey("leading-fetcher", w.seed), harness.NewEncKey("leading-fetcher-enc", w.seed)
+		fraw, _ := proto.Marshal(harness.SignedRequest(harness.Info(fk, fe, harness.Bytes("leading-fetch-nonce", 32)), fk))
+		fp, err := nodetls.BreakIntoNextProtos(nodeenrollment.FetchNodeCredsNextProtoV1Prefix, base64.RawStdEncoding.EncodeToString(fraw))
+		if err != nil {
+			panic(err)
+		}
+		c.FirstProtos = fp
 	}
 	var key crypto.Signer
 	b := w.n1.Creds.CertificateBundles
@@ -830,7 +839,7 @@ func init() {
 	engine.Register(&engine.CheckDef{
 		ID:    "C02",
 		Level: "exploration",
-		Rule: "hand-built TLS 1.3 clients against the real InterceptingListener over a loopback socket, 15 virtual days after enrollment (one root expired, one valid): product of 10 capability dimensions (holds key 2 x certificate 8 x record 2 x nonce signature 4 x skip flag 2 x node-id hint 5 x client state 3 x certificate preference 3 x common name 2 x leading fetch-protocol entry 3 = 69120; quick: all vectors with at most 3 dishonest coordinates); every single-bit flip and truncation of an honest ALPN-carried request; well-formed fetch handshakes (authorized and not) in 5 ALPN arrangements, none of which may yield a connection; every vector with at most one dishonest coordinate again as the second connection of a listener that has just served a fetch handshake; BFS over register / remove / connect of two nodes with the real dialer; oracle: authenticated => possession proof, chain to a currently valid root, nonce (and state) signed by the key of a record the property says is consulted; " +
+		Rule: "hand-built TLS 1.3 clients against the real InterceptingListener over a loopback socket, 15 virtual days after enrollment (one root expired, one valid): product of 10 capability dimensions (holds key 2 x certificate 8 x record 2 x nonce signature 4 x skip flag 2 x node-id hint 5 x client state 3 x certificate preference 3 x common name 2 x leading fetch-protocol entry 4 (none, empty, garbage, well-formed request of an unregistered key) = 92160; quick: all vectors with at most 3 dishonest coordinates); every single-bit flip and truncation of an honest ALPN-carried request; well-formed fetch handshakes (authorized and not) in 5 ALPN arrangements, none of which may yield a connection; every vector with at most one dishonest coordinate again as the second connection of a listener that has just served a fetch handshake; BFS over register / remove / connect of two nodes with the real dialer; oracle: authenticated => possession proof, chain to a currently valid root, nonce (and state) signed by the key of a record the property says is consulted; " +
 			"distinct_nontrivial counts handshakes (distinct by construction) that completed on the server side with a verdict",
 		Assumptions: []string{"forged = signed with another pool key; captured signatures are modelled by giving the adversary the signature but not the TLS key", "the honest vector must authenticate (vacuity guard), other entitled vectors may be rejected"},
 		Shards:      func(c *engine.Ctx) int { return 16 },
